@@ -202,8 +202,15 @@ def _are_sets_equal(x, y, _exact_strings, _delta):
     """
     if len(x) != len(y):
         return False
+    # Pair the elements off one-to-one: two elements of x must not both be
+    # accounted for by the same element of y
+    unmatched = list(y)
     for x_element in x:
-        if not _set_contains(x_element, y, _exact_strings, _delta):
+        for index, y_element in enumerate(unmatched):
+            if equality_test(y_element, x_element, _exact_strings, _delta):
+                del unmatched[index]
+                break
+        else:
             return False
     return True
 
